@@ -18,7 +18,7 @@ import (
 
 	"github.com/hydraide/hydraide/app/core/hydra/swamp/bucket/valuecanon"
 	"github.com/hydraide/hydraide/app/core/hydra/swamp/treasure"
-	"github.com/vmihailenco/msgpack/v5"
+	"github.com/hydraide/hydraide/app/core/hydra/swamp/treasure/msgpackpatch"
 )
 
 // RangeOp is the comparison operator for a range lookup. v1 stubs only;
@@ -471,7 +471,7 @@ func extractKey(t treasure.Treasure, fieldPath string) (valuecanon.Key, bool) {
 		body = body[2:]
 	}
 	var m map[string]any
-	if err := msgpack.Unmarshal(body, &m); err != nil {
+	if err := msgpackpatch.UnmarshalChecked(body, &m); err != nil {
 		return valuecanon.NullKey, false
 	}
 	v := extractFieldByPath(m, fieldPath)
